@@ -12,8 +12,9 @@ matching semantics *as a whole* are declined.  Decided (shape of the code and of
          '' before the lookups; the operator is the quantifier of the segment group, and its (min, max)
          from the regex AST agrees with the flags: optional <=> min == 0, multi <=> max > 1;
   R05.c  rejection discipline: five guarded ``raise InvalidPattern`` (no leading slash, '//', duplicate
-         binding, unknown type via KeyError, unknown operator via KeyError); Route.__init__ compiles the
-         pattern on every normal path before storing it;
+         binding, unknown type and unknown operator via KeyError handler or membership test); every table
+         lookup can only fail as InvalidPattern; Route.__init__ compiles the pattern on every normal path
+         before storing it;
   R05.d  anchoring and no-raise matching: the compiled expression is '^' ... '$'; separator '/+' (or '/'
          in strict mode) and trailing '/*' outside strict mode; in match_path every converter call is under
          a handler catching ValueError and TypeError that returns None; a failed regex match returns None;
